@@ -6,7 +6,7 @@ From Coq Require Import List NArith ZArith Bool Arith Lia.
 From Coq Require Import Init.Byte.
 From FFS Require Import Base.Res Base.Bytes Abi.Types Abi.Spec Abi.ModelTypes Abi.EncModel Abi.InputModel.
 Import ListNotations.
-Open Scope string_scope.
+Local Open Scope string_scope.
 
 Definition fx (e : ekind) (sfx : string) (m n : N) : tcomp := TCElem e (ascii_bytes sfx) m n [].
 Definition enc_text (tc : tcomp) (lit : string) : res bytes :=
